@@ -67,13 +67,15 @@ class Run:
         flags = cs["flags"] if cs["exists"] and cs["flags"] >= 0 else 0
         if cs["key"] and cs["key"] not in self.keys:
             self.keys.append(cs["key"])
-        dirs = [d for d in w.client_dirs() if d != getattr(self, "decoy_sid", None)]
+        # a service directory is one that holds service files (a tmp/ or logs/ directory next to them is not a service)
+        dirs = [d for d in w.client_dirs() if d != getattr(self, "decoy_sid", None)
+                and any(f.startswith(("service_meta", "config.json", "key", "edb")) for f in os.listdir(os.path.join(w.cdir, d)))]
         ss = w.server_state(self.sid) if self.sid else {"st": 0}
         stray = [f for f in os.listdir(w.cdir) if not os.path.isdir(os.path.join(w.cdir, f))]
         o = {"exists": bool(cs["exists"] and cs["flags"] >= 0),
              "cc": bool(flags & 1), "cu": bool(flags & 2), "kc": bool(flags & 4), "de": bool(flags & 8), "du": bool(flags & 16),
              "keyVer": len(self.keys) if cs["key"] else 0,
-             "sst": ss["st"], "ndirs": len(dirs),
+             "sst": ss["st"], "ndirs": len(dirs), "live": False,
              "filesok": set(cs["files"]) <= OKFILES and not stray and cs["flags"] != -2,
              "changed": (before["key"], before["cfgd"], before["edb"], before["flags"]) != (cs["key"], cs["cfgd"], cs["edb"], cs["flags"])}
         return o
